@@ -571,7 +571,7 @@ def flow_b(ctx, extra_units):
 
 
 EXPECTED_RULES = {"6.7.1p3-block-thread-local", "6.7.1p7-block-function-storage-class", "6.7.9p5-block-linkage-initializer",
-                  "6.7p3-no-linkage-redeclared", "6.7.1p3-thread-local-mismatch", "6.9p3-internal-redefined",
+                  "6.7p3-no-linkage-redeclared", "6.7p4-different-kind", "6.2.7p2", "6.7.1p3-thread-local-mismatch", "6.9p3-internal-redefined",
                   "6.9p3-internal-used-undefined", "6.2.2p7", "6.9p5", "6.7.4p7"}
 EXPECTED_DEVS = {"ExternInheritsNoLinkage", "ThreadNoTentative", "ThreadMismatchNotDiagnosed", "InlineLateExternal", "NoUsedInternalUndefDiag"}
 
@@ -662,7 +662,7 @@ def run(ctx):
     # B. the same with __asm__ labels and object/function mixes
     stream(ctx, objdir, "MC_Linkage_mix_quick.cfg" if q else "MC_Linkage_mix_thorough.cfg", "m", stats, workers=8 if q else 16)
     # C. random multi-identifier units
-    r3, units3 = stream(ctx, objdir, "MC_Linkage_sim.cfg", "s", stats, simulate=1 if q else 40, depth=12, keep_units=100 if q else 400, workers=4 if q else 8)   # num is per worker; TLC checks (and so emits) every generated successor
+    r3, units3 = stream(ctx, objdir, "MC_Linkage_sim.cfg", "s", stats, simulate=1 if q else 24, depth=12, keep_units=100 if q else 400, workers=4 if q else 8)   # num is per worker; TLC checks (and so emits) every generated successor
     # vacuity guard: every rule of the specification and every named deviation occurred
     missing = (EXPECTED_RULES - stats["rules"]) | (EXPECTED_DEVS - stats["devs"])
     ctx.cov["classes"] = stats["classes"]
